@@ -801,6 +801,8 @@ class MBXML:
             token_config: MBXMLToken = copy(
                 doctype_configuration[MBXMLTokenType.ELEMENT_TOKEN][token_id]
             )
+            # shallow copy shares the attribute list with the class-level token table
+            token_config.attributes = list(token_config.attributes)
             token_config.token_id = token_id
             if cls.DEBUG:
                 print(f"read_document token {token_config}")
